@@ -47,24 +47,27 @@ class Unsupported(Exception):
     pass
 
 
-def translate(params, body):
-    """-> SMT term (string) over self_state, self_inc, o_inc, o_state."""
+def translate(params, body, group="can_change"):
+    """-> SMT term (string) over self_state, self_inc, o_inc, o_state (can_change)
+    or over `kind` (message-kind predicates)."""
     blocks = {}
     for m in re.finditer(r"^    (bb\d+): \{\n(.*?)^    \}", body, re.S | re.M):
         blocks[m.group(1)] = [l.strip() for l in m.group(2).strip().splitlines() if l.strip()]
     if "bb0" not in blocks:
         raise Unsupported("no bb0")
     # parameter roles from the signature: _1: &Member<T>, _2: u16, _3: State
-    if not re.match(r"_1: &Member<T>, _2: u16, _3: (member::)?State", params):
+    if group == "can_change" and not re.match(r"_1: &Member<T>, _2: u16, _3: (member::)?State", params):
+        raise Unsupported("signature changed: " + params)
+    if group == "gates" and not re.match(r"_1: &Message<T>$", params.strip()):
         raise Unsupported("signature changed: " + params)
 
     def operand(env, tok):
         tok = tok.strip()
         tok = re.sub(r"^(copy|move) ", "", tok)
-        if tok == "_2":
-            return "o_inc"
         if tok in env:
             return env[tok]
+        if tok == "_2" and group == "can_change":
+            return "o_inc"
         m = re.match(r"const (\d+)_u16", tok)
         if m:
             return "(_ bv%d 16)" % int(m.group(1))
@@ -79,6 +82,11 @@ def translate(params, body):
             return "self_state"
         if rhs == "discriminant(_3)":
             return "o_state"
+        if rhs == "discriminant((*_1))" and group == "gates":
+            return "kind"
+        m = re.match(r"Not\((?:move|copy) (_\d+)\)", rhs)
+        if m:
+            return "(not %s)" % operand(env, m.group(1))
         m = re.match(r"copy \(\(\*_1\)\.(\d+): u16\)", rhs)
         if m:
             return "self_inc"
@@ -178,10 +186,91 @@ def run_solver(cmd, text):
     return first, out[:200], time.time() - t0
 
 
+def message_variants(repo):
+    src = open(os.path.join(repo, "src", "payload.rs")).read()
+    m = re.search(r"pub enum Message<T> \{(.*?)\n\}", src, re.S)
+    body = re.sub(r"\{[^}]*\}", "", m.group(1))      # struct-like variants
+    body = re.sub(r"\([^)]*\)", "", body)            # tuple variants
+    body = re.sub(r"//[^\n]*", "", body)
+    names = re.findall(r"\b([A-Z]\w*)\s*,", body)
+    return {n: i for i, n in enumerate(names)}
+
+
+# message-kind gates, from the property statements (C07, C15, C16)
+GATES = {
+    "needs_piggyback": ("carries a member section (count + members): every kind except Announce, TurnUndead, Broadcast",
+                        lambda v: v not in ("Announce", "TurnUndead", "Broadcast")),
+    "allow_custom_broadcasts": ("may carry custom broadcast items: every kind except Announce and TurnUndead",
+                                lambda v: v not in ("Announce", "TurnUndead")),
+    "piggyback_only_active": ("lists active members instead of pending updates: Feed only", lambda v: v == "Feed"),
+}
+
+
+def main_gates(repo):
+    res = {"engine": "E4 mir2smt", "function": "payload::Message::<T>::{needs_piggyback, allow_custom_broadcasts, piggyback_only_active}",
+           "queries": [], "status": "inconclusive"}
+    mir, err = dump_mir(repo)
+    if mir is None:
+        res["detail"] = "MIR dump failed: " + err
+        print(json.dumps(res))
+        return 2
+    try:
+        variants = message_variants(repo)
+        if len(variants) != 11:
+            raise Unsupported("expected 11 message kinds, found %d" % len(variants))
+    except (Unsupported, AttributeError) as e:
+        res["detail"] = "Message enum not recognised: %s" % e
+        print(json.dumps(res))
+        return 2
+    solvers = [("z3", ["/usr/bin/z3", "-in"]), ("cvc5", ["cvc5", "--lang", "smt2"])]
+    bad, inconclusive = [], []
+    for fn, (text, want) in GATES.items():
+        params, body = extract_fn(mir, fn)
+        try:
+            if body is None:
+                raise Unsupported("not found in MIR")
+            term = translate(params, body, "gates")
+        except Unsupported as e:
+            inconclusive.append("%s: MIR shape not recognised: %s" % (fn, e))
+            continue
+        table = " ".join("(= (f (_ bv%d 8)) %s)" % (i, "true" if want(v) else "false") for v, i in variants.items())
+        prelude = "(set-logic ALL)\n(define-fun f ((kind (_ BitVec 8))) Bool %s)\n" % term
+        for qname, q, expect in [("sanity", "(declare-const k (_ BitVec 8)) (assert (f k))", "sat"),
+                                 (text, "(assert (not (and %s)))" % table, "unsat")]:
+            answers = {}
+            for sn, cmd in solvers:
+                try:
+                    a, raw, dt = run_solver(cmd, prelude + q + "\n(check-sat)\n")
+                except (OSError, subprocess.TimeoutExpired) as e:
+                    a, dt = "error", 0.0
+                answers[sn] = {"answer": a, "s": round(dt, 3)}
+            got = set(v["answer"] for v in answers.values())
+            ok = got == {expect}
+            name = "%s: %s" % (fn, qname)
+            res["queries"].append({"name": name, "expect": expect, "answers": answers, "ok": ok, "smt_term": term})
+            if not ok:
+                (bad if (got <= {"sat", "unsat"} and len(got) == 1) else inconclusive).append(name)
+    res["variants"] = variants
+    res["violated"] = bad
+    res["inconclusive"] = inconclusive
+    if bad and not inconclusive:
+        res["status"] = "violated"
+        print(json.dumps(res))
+        return 1
+    if inconclusive:
+        print(json.dumps(res))
+        return 2
+    res["status"] = "holds"
+    print(json.dumps(res))
+    return 0
+
+
 def main():
     repo = "/repo"
     if "--repo" in sys.argv:
         repo = sys.argv[sys.argv.index("--repo") + 1]
+    if "--group" in sys.argv and sys.argv[sys.argv.index("--group") + 1] == "gates":
+        return main_gates(repo)
     res = {"engine": "E4 mir2smt", "function": "member::Member::<T>::can_change", "queries": [], "status": "inconclusive"}
     mir, err = dump_mir(repo)
     if mir is None:
